@@ -504,6 +504,16 @@ func runC07(o *out, thorough bool, r *rng, _ []string) map[string]interface{} {
 		ex := fill(r, r.pick([]int{0, 0, 7, 19, 20, 21, 64}), r.intn(3))
 		o.run(701, []string{fHex(data), fHex(ex), fNums(6, 8), fHex(key)}, true)
 		o.run(701, []string{fHex(data), fHex(ex), fNums(7, 0x8028), "-"}, true)
+		{
+			// a valid MESSAGE-INTEGRITY followed by a FINGERPRINT-typed attribute of any value length
+			plain := signedMessage(r, key, r.intn(3), 0, true, false)
+			l := r.pick([]int{0, 1, 2, 3, 5, 6, 7, 8, 12, 20, 40})
+			ext := append(append([]byte(nil), plain...), r.tlv(0x8028, r.bytes(l), l)...)
+			bl := len(ext) - 20
+			ext[2], ext[3] = byte(bl>>8), byte(bl)
+			o.run(701, []string{fHex(ext), fHex(ex), fNums(6, 8), fHex(key)}, true)
+			o.run(701, []string{fHex(ext), fHex(ex), fNums(7, 0x8028), "-"}, true)
+		}
 		o.count("signed-messages")
 	}
 	return map[string]interface{}{"exhaustive_part": "every getter/checker x every attribute type it serves x EVERY value length 0..40 x position first/middle/last x capacity exact and +1..+64 (+ the 1..4 byte tails that a short value could over-read)"}
@@ -781,6 +791,24 @@ func runC06(o *out, thorough bool, r *rng, _ []string) map[string]interface{} {
 		}
 		o.run(601, []string{fHex(r.bytes(12)), withBytes([]int{7, 401}, []byte(q)), fNums(4, 9), "-"}, true)
 		o.count("quoted-text-values")
+	}
+	// UNKNOWN-ATTRIBUTES values that end in a repeated type, or are one 16-bit pattern throughout (RFC 3489 padded
+	// odd lists by repeating the last type; RFC 5389 does not): every type of the value is reported
+	for i := 0; i < 60; i++ {
+		n := 1 + i%9
+		var enc []byte
+		for k := 0; k < n; k++ {
+			t := r.attrType()
+			if i%3 == 0 {
+				t = []int{0, 0xffff, 0x0014, 0x8022}[i/3%4]
+			}
+			enc = append(enc, byte(t>>8), byte(t))
+		}
+		enc = append(enc, enc[len(enc)-2:]...) // the last type once more
+		o.run(603, []string{fHex(r.bytes(12)), "4", fHex(enc)}, true)
+		body := r.tlv(0x000a, enc, len(enc))
+		o.run(701, []string{fHex(append(header(0x0111, len(body), r.bytes(12)), body...)), "-", fNums(5, 10), "-"}, true)
+		o.count("unknown-lists-ending-in-a-repeated-type")
 	}
 	// what the ERROR-CODE getter hands out belongs to the caller (it is a view into the message): overwriting it
 	// changes nothing about the phrases the library writes for default codes afterwards
